@@ -63,12 +63,14 @@ structure WFrame (i : Nat) (w w' : World) : Prop where
   ident : ∀ o, w.insts[i]? = some o → ∃ o', w'.insts[i]? = some o' ∧ o'.oid = o.oid ∧ o'.cls = o.cls
   le : w.ctx.alloc ≤ w'.ctx.alloc
   heap : ∀ x, x < w.ctx.alloc → heapGet w'.ctx.heap x = heapGet w.ctx.heap x ∨ w'.ReachIdx i x
+  /-- a container stays a container, a non-container does not become one -/
+  kept : ∀ x, x < w.ctx.alloc → (heapGet w'.ctx.heap x).isSome = (heapGet w.ctx.heap x).isSome
   log : ∃ l, w'.ctx.log = w.ctx.log ++ l ∧ ∀ c ∈ l, ∃ o, w.insts[i]? = some o ∧ c.obj = o.oid
   fcalls : ∃ l, w'.ctx.fcalls = w.ctx.fcalls ++ l ∧ ∀ f ∈ l, ∃ o, w.insts[i]? = some o ∧ f.2.1 = o.oid
 
 theorem WFrame.refl (i : Nat) (w : World) : WFrame i w w :=
   ⟨rfl, fun _ _ _ => rfl, Nat.le_refl _, fun o h => ⟨o, h, rfl, rfl⟩, Nat.le_refl _, fun _ _ => Or.inl rfl,
-   ⟨[], by simp, by simp⟩, [], by simp, by simp⟩
+   fun _ _ => rfl, ⟨[], by simp, by simp⟩, [], by simp, by simp⟩
 
 theorem setInst_get_self (w : World) (i : Nat) (o o' : Inst) (c : Ctx) (h : w.insts[i]? = some o) :
     (w.setInst i o' c).insts[i]? = some o' := by
@@ -105,7 +107,7 @@ theorem onAttr_frame (w : World) (i : Nat) (n : Name) (f : TraitCore → OSt →
         have hctx : (w.focus o n).ctx = w.ctx := rfl
         obtain ⟨l, hl, hm⟩ := hs.log
         obtain ⟨k, hk, hn⟩ := hs.fcalls
-        refine ⟨rfl, fun j hj _ => setInst_get_other w i j _ _ hj, ?_, ?_, ?_, ?_, ⟨l, ?_, ?_⟩, k, ?_, ?_⟩
+        refine ⟨rfl, fun j hj _ => setInst_get_other w i j _ _ hj, ?_, ?_, ?_, ?_, ?_, ⟨l, ?_, ?_⟩, k, ?_, ?_⟩
         · simp [World.setInst]
         · intro o2 h2
           rw [hi] at h2
@@ -118,6 +120,11 @@ theorem onAttr_frame (w : World) (i : Nat) (n : Name) (f : TraitCore → OSt →
           have := hs.heap x (by rw [hctx]; exact hx)
           rw [hctx] at this
           exact this
+        · intro x hx
+          have := hs.heap x (by rw [hctx]; exact hx)
+          rw [hctx] at this
+          show (heapGet s.ctx.heap x).isSome = _
+          rw [this]
         · rw [← hctx]; exact hl
         · intro c hc; exact ⟨o, hi, by rw [hm c hc, hself]⟩
         · rw [← hctx]; exact hk
@@ -333,7 +340,8 @@ theorem step_frame (E : Env) (w : World) (op : WOp) (i : Nat) (ht : op.target = 
     | some o =>
       simp only []
       refine ⟨rfl, fun k hk _ => setInst_get_other w j k _ _ hk, by simp [World.setInst], ?_, Nat.le_refl _,
-        fun _ _ => Or.inl rfl, ⟨[], by simp [World.setInst], by simp⟩, [], by simp [World.setInst], by simp⟩
+        fun _ _ => Or.inl rfl, fun _ _ => rfl, ⟨[], by simp [World.setInst], by simp⟩, [], by simp [World.setInst],
+        by simp⟩
       intro o2 h2
       rw [hi] at h2
       injection h2 with h2
@@ -347,7 +355,8 @@ theorem step_frame (E : Env) (w : World) (op : WOp) (i : Nat) (ht : op.target = 
     | some o =>
       simp only []
       refine ⟨rfl, fun k hk _ => setInst_get_other w j k _ _ hk, by simp [World.setInst], ?_, Nat.le_refl _,
-        fun _ _ => Or.inl rfl, ⟨[], by simp [World.setInst], by simp⟩, [], by simp [World.setInst], by simp⟩
+        fun _ _ => Or.inl rfl, fun _ _ => rfl, ⟨[], by simp [World.setInst], by simp⟩, [], by simp [World.setInst],
+        by simp⟩
       intro o2 h2
       rw [hi] at h2
       injection h2 with h2
@@ -377,7 +386,11 @@ theorem step_frame (E : Env) (w : World) (op : WOp) (i : Nat) (ht : op.target = 
           obtain ⟨l, hl, hlm⟩ := hf.log
           obtain ⟨k, hk, hkm⟩ := hf.fcalls
           refine ⟨hf.classes, hf.others, hf.len, hf.ident, by rw [show ({ w1 with ctx := _ } : World).ctx.alloc
-              = (w1.ctx.mutate cid x).2.alloc from rfl, hm.1]; exact hf.le, ?_, ⟨l, ?_, hlm⟩, k, ?_, hkm⟩
+              = (w1.ctx.mutate cid x).2.alloc from rfl, hm.1]; exact hf.le, ?_, ?_, ⟨l, ?_, hlm⟩, k, ?_, hkm⟩
+          rotate_left
+          · intro y hy
+            show (heapGet (w1.ctx.mutate cid x).2.heap y).isSome = _
+            rw [hm.2.2.2.2 y, hold y hy]
           · intro y hy
             by_cases hyc : y = cid
             · right
@@ -430,7 +443,11 @@ theorem step_frame (E : Env) (w : World) (op : WOp) (i : Nat) (ht : op.target = 
             obtain ⟨l, hl, hlm⟩ := hf.log
             obtain ⟨k, hk, hkm⟩ := hf.fcalls
             refine ⟨hf.classes, hf.others, hf.len, hf.ident, by rw [show ({ w1 with ctx := _ } : World).ctx.alloc
-                = (w1.ctx.mutate inner x).2.alloc from rfl, hm.1]; exact hf.le, ?_, ⟨l, ?_, hlm⟩, k, ?_, hkm⟩
+                = (w1.ctx.mutate inner x).2.alloc from rfl, hm.1]; exact hf.le, ?_, ?_, ⟨l, ?_, hlm⟩, k, ?_, hkm⟩
+            rotate_left
+            · intro y hy
+              show (heapGet (w1.ctx.mutate inner x).2.heap y).isSome = _
+              rw [hm.2.2.2.2 y, hold y hy]
             · intro y hy
               by_cases hyc : y = inner
               · right
